@@ -202,6 +202,30 @@ def correspond(ctx, corr):
             # converse: the standard's frame decodes to the command of that name
             pass
     corr.count("standard_rows", len(lines))
+    # 'whether it expects an answer' is also observable as `is_query` on every object (the drivers decide by it
+    # whether to wait for a backward frame): it must agree with the standard's Answer column, for the objects
+    # built above and for the ones decoded below
+    std_answer = {}
+    for l, a in zip(lines, ans):
+        if l.startswith("spec row ") and " answer=" in a:
+            std_answer[l[len("spec row "):]] = a.split(" answer=")[1] != ""
+
+    def check_is_query(obj, name, where):
+        if name not in std_answer:
+            return
+        try:
+            got = obj.is_query
+        except Exception as e:  # noqa
+            got = "raises " + type(e).__name__
+        if got is not std_answer[name]:
+            corr.violate("table:is_query:" + name, where, std_answer[name], got,
+                         "is_query differs from the standard's Answer column")
+    seen_q = set()
+    for cmd, line, name, args in built:
+        if name not in seen_q or rng.random() < 0.05:
+            seen_q.add(name)
+            check_is_query(cmd, name, line)
+    corr.count("is_query", len(seen_q))
     # converse direction on a sample of the frames (all of them in thorough)
     idx = [k for k, (w, d) in enumerate(wants) if d[0] == "frame" and ans[k].startswith("ok ")]
     if not ctx.thorough:
@@ -221,6 +245,8 @@ def correspond(ctx, corr):
         if cc.clsname(back) != name:
             corr.violate("table:decode:" + name, lines[k], name, cc.clsname(back),
                          "the standard's frame does not decode to the command of that name")
+        else:
+            check_is_query(back, name, "decoded from " + lines[k])
         n += 1
     corr.count("decode_of_standard_frame", n)
     corr.sample({"suite": "standard_rows", "request": "spec row gear.led.SelectDimmingCurve",
